@@ -90,6 +90,12 @@ def rule_both(ctx):
         return res.finish(0)
     for (crate, adt), d in sorted(ser_impls(F).items()):
         inst = "%s::%s" % (crate, adt)
+        only = d.get("ser") or d.get("de")
+        if not ("ser" in d and "de" in d) and not only.get("derived") and F.crates[crate].exports.get(adt) is None:
+            # a hand-written one-sided impl on a type that cannot be named from outside its crate: a helper of
+            # somebody else's hand-written impl (field identifier, visitor), not a value users serialise
+            res.info.append("private helper with a hand-written one-sided impl (not a serialisable model type): %s" % inst)
+            continue
         res.instance(inst)
         if "ser" in d and "de" in d:
             res.ok()
@@ -156,7 +162,7 @@ def rule_struct(ctx):
         inst = "%s::%s" % (crate, path)
         short = path.split("::")[-1]
         if a is None:
-            res.violate("%s : adt-not-found" % inst, "serialisable type %s not found among the crate's ADTs" % inst)
+            res.undecided("%s : adt-not-found" % inst, "serialisable type %s not found among the crate's ADTs" % inst)
             continue
         c = F.crates[crate]
         loc = "%s:%d" % (c.files[a["file"]], a["line"])
@@ -165,11 +171,11 @@ def rule_struct(ctx):
             if short in HANDWRITTEN_ALLOW:
                 res.ok()
             else:
-                res.violate("%s : hand-written-impl" % inst, "hand-written Serialize/Deserialize impl for %s has not been reviewed (fail closed)" % inst, loc)
+                res.undecided("%s : hand-written-impl" % inst, "hand-written Serialize/Deserialize impl for %s has not been reviewed (fail closed)" % inst, loc)
             continue
         sf = ser_fns.get((crate, path))
         if sf is None:
-            res.violate("%s : no-serialize-body" % inst, "generated serialize body not found", loc)
+            res.undecided("%s : no-serialize-body" % inst, "generated serialize body not found", loc)
             continue
         # --- what is written
         written = {}      # key string -> source field
@@ -381,7 +387,7 @@ def rule_witness(ctx):
         for ty, key, problem in items:
             if ty is None:
                 res.instance("%s : %s" % (key, problem))
-                res.violate("%s : cannot-instantiate" % key, "witness generator has no instantiation for %s (%s): extend BOUND_MAP (fail closed)" % (key, problem))
+                res.undecided("%s : cannot-instantiate" % key, "witness generator has no instantiation for %s (%s): extend BOUND_MAP (fail closed)" % (key, problem))
                 continue
             idx += 1
             ln = next((i + 1 for i, s in enumerate(lines) if s.startswith("pub fn w%d()" % idx)), None)
@@ -467,8 +473,6 @@ def rule_guard(ctx):
     # the guard is only worth something if it is raised whenever a function tokenizer is configured
     n_set = 0
     for f in fns:
-        if f["d"]["name"] in ("force_tokenizer_function_redefinition", "force_tokenizer_redefinition"):
-            continue   # restoration entry of an already-fitted (possibly restored) vectoriser: the guard is whatever was serialised
         if not any(x.get("k") == "Assign" and strip(x["l"]).get("k") == "Field" and strip(x["l"])["name"] == "tokenizer_function" for x in walk(f["body"])):
             continue
         tr = Tracer(f).run()
@@ -493,7 +497,45 @@ def rule_guard(ctx):
                 res.violate("%s : function-without-guard" % key, "a tokenizer function is installed but `tokenizer_deserialization_guard` is %s on that path: after a round trip the function is gone, the guard does not fire and the default regex is used silently" % ("left `%s`" % (lv.name if lv is not None else "?") if last is not None else "never set"), fn_loc(f, e.node["ln"]))
     if n_set == 0:
         res.missing_anchor("the setter that installs Tokenizer::Function in CountVectorizerParams")
-    return res.finish(4)
+    # ... and lowered only together with the function: a lowered guard next to a function that stays installed makes the
+    # fitted vectoriser use the function now and the regex after a round trip, silently
+    n_low = 0
+    for f in fns:
+        if not any(x.get("k") == "Assign" and strip(x["l"]).get("k") == "Field" and strip(x["l"])["name"] == "tokenizer_deserialization_guard" for x in walk(f["body"])):
+            continue
+        tr = Tracer(f).run()
+        evs = [e for e in tr.events if e.kind == "assign" and e.lhs_node.get("k") == "Field"]
+        for e in evs:
+            v = as_term(e.val)
+            if e.lhs_node["name"] != "tokenizer_deserialization_guard" or v is None or v.op != "lit:false":
+                continue
+            n_low += 1
+            key = fn_key(f)
+            res.instance("%s : guard lowered" % key)
+            eg = set((g[0], g[1]) for g in e.guards)
+            same_path = [x for x in evs if x.lhs_node["name"] == "tokenizer_function" and set((g[0], g[1]) for g in x.guards) <= eg]
+            last = max(same_path, key=lambda x: x.order) if same_path else None
+            lv = as_term(last.val) if last is not None else None
+            if lv is not None and lv.op.endswith("None") and not lv.args:
+                res.ok()
+            else:
+                res.violate("%s : guard-lowered-function-kept" % key, "`tokenizer_deserialization_guard` is set to false while a previously installed tokenizer function stays in place: the vectoriser uses the function now and, after a round trip, the regex - without any error", fn_loc(f, e.node["ln"]))
+    if n_low == 0:
+        res.missing_anchor("the setter that lowers the guard for Tokenizer::Regex")
+    # ... and restored *parameters* whose function is gone are rejected by validation (fit then returns that error)
+    chk = [f for f in fns if f["d"]["name"] == "check_ref" and (f["d"].get("self_adt") or "").endswith("CountVectorizerParams")]
+    if not chk:
+        res.missing_anchor("<CountVectorizerParams as ParamGuard>::check_ref")
+    for f in chk:
+        key = fn_key(f)
+        res.instance("%s : rejects restored parameters without their tokenizer function" % key)
+        tr = Tracer(f).run()
+        errs = [e for e in tr.events if e.kind == "call" and e.name == "Err" and e.args and as_term(e.args[0]) is not None and as_term(e.args[0]).op.endswith("TokenizerNotSet")]
+        if any(any("tokenizer_deserialization_guard" in g[1] for g in e.guards) and any("tokenizer_function" in g[1] for g in e.guards) for e in errs):
+            res.ok()
+        else:
+            res.violate("%s : restored-params-not-rejected" % key, "a parameter set restored without its tokenizer function (guard raised, function None) passes validation and refits with the default regex instead of returning TokenizerNotSet", fn_loc(f))
+    return res.finish(6)
 
 
 def rules(tier):
